@@ -111,7 +111,11 @@ where
                     }),
                     Ok(Ok(Response {
                         result: Err(err), ..
-                    })) => Err(err.into()),
+                    })) => {
+                        // The child exits after reporting a panic, start a new one.
+                        break_out = true;
+                        Err(err.into())
+                    }
                     Ok(Err(Error::ReadFailed(err))) if err.kind() == ErrorKind::UnexpectedEof => {
                         break_out = true;
                         Err(Error::Crashed)
